@@ -15150,6 +15150,30 @@ fn get_htlc_forward_failure(
 	}
 }
 
+/// Add-only accessor for the external verification harness (see `ln::verif_hooks::onion`): runs
+/// `get_htlc_forward_failure` unchanged and returns the `update_fail_htlc` packet or the
+/// `update_fail_malformed_htlc` fields it chose.
+#[cfg(feature = "verif_hooks")]
+pub(crate) fn verif_get_htlc_forward_failure(
+	blinded_failure: &Option<BlindedFailure>, onion_error: &HTLCFailReason,
+	incoming_packet_shared_secret: &[u8; 32],
+) -> Result<msgs::OnionErrorPacket, (u16, [u8; 32])> {
+	match get_htlc_forward_failure(
+		blinded_failure,
+		onion_error,
+		incoming_packet_shared_secret,
+		&None,
+		&None,
+		0,
+	) {
+		HTLCForwardInfo::FailHTLC { err_packet, .. } => Ok(err_packet),
+		HTLCForwardInfo::FailMalformedHTLC { failure_code, sha256_of_onion, .. } => {
+			Err((failure_code, sha256_of_onion))
+		},
+		HTLCForwardInfo::AddHTLC(_) => unreachable!(),
+	}
+}
+
 /// Parameters used with [`create_bolt11_invoice`].
 ///
 /// [`create_bolt11_invoice`]: ChannelManager::create_bolt11_invoice
